@@ -278,7 +278,7 @@ def main(argv=None):
             distinct_nontrivial=distinct,
             rule=meta["rule"],
             samples=flat_samples,
-            labels=dict(sorted(labels.items(), key=lambda kv: -kv[1])[:120]),
+            labels=dict(sorted(labels.items(), key=lambda kv: -kv[1])[:220]),
             excluded_by_known_findings=excluded,
             known_findings_hit={k: v[1] for k, v in known_hit.items()},
             shards=nshards,
